@@ -16,6 +16,12 @@ CHECKS={
 "C14":("model_checking","Concurrent inv/res histories of MemFs and DirFs (random phase plus barrier-released bursts on one name) are validated for linearizability against FsSem by FsLinTrace.tla (TLC searches linearization points; concrete descriptor numbers of simultaneously open descriptors must differ); MemFs.tla models the mutex / check-then-insert / descriptor allocation and must be violated by the modelled breaking changes; its gate table is forced on the real MemFs through the verif hooks; the driver also runs under the race detector and in a child process so that a runtime abort is observed.",
   "Trusted: TLC, atomic sequence numbers. Driver discipline keeps operations inside their preconditions under every interleaving. DirFs: per-client AtomicCreate names, small directories. Race freedom is decided by Go's race detector.",
   "trace validation of concurrent histories against the TLA+ reference model (linearizability search); TLA+ L2 spec; hook-forced schedules; race detector","§4.6, §5 C14"),
+"C15":("model_checking","Prims.tla defines Put/Get on limb sequences (a word IS its little-endian limb sequence) with refusal of short buffers; TLC checks RoundTrip, Framed, RefusedUntouched on every case and prints the expected buffer for every (length 0..12, prior content, value) case; the harness replays each case on UInt64Put/Get and UInt32Put/Get comparing every byte.",
+  "Trusted: TLC, math/big for rebuilding numbers from limbs. The 2^64 value space is sampled (boundary limbs + seeded random); lengths and framing are exhausted.",
+  "TLA+ contract evaluated by TLC as a case table; spec->code replay of every case","§4.7, §5 C15"),
+"C16":("model_checking","Prims!Dec (canonical decimal by limb division) is compared with UInt64ToString; MapClear/Assume/Assert are exercised directly; WaitTimeout.tla (caller, helper goroutine, timer, signallers, leaked helpers across calls) is model checked for HeldAtReturn, NoBadUnlock, CallerOwns, PromptAfterSignal and liveness, and must be violated by the modelled breaking change; real runs of machine.WaitTimeout over timeout x signal kind/offset x prelude scenarios are validated by WaitTimeoutTrace.tla (deadline with tolerance Delta, lock held), a rejection counting only if it reproduces 3 of 3 times.",
+  "Trusted: TLC; wall-clock bounds use Delta=150 ms and the reproduce-3-times rule (timing is otherwise never a verdict). Known finding: leaked helper consumes a later Signal.",
+  "TLA+ L2 spec + TLC (safety and liveness); trace validation of timed runs of the real function","§4.7, §5 C16"),
 }
 ALL=["C%02d"%i for i in range(1,19)]
 checks=[]
